@@ -478,6 +478,17 @@ type famWrite struct {
 	sort  string
 	deps  map[string]bool // families read to compute derived bases (must not be written in the loop)
 	nonFresh bool         // some write in the loop may hit an object that existed before the loop
+	subBases []subBase    // locations inside by-value embedded structs of stable bases
+}
+
+type subStep struct {
+	T types.Type
+	I int
+}
+
+type subBase struct {
+	base ssa.Value
+	path []subStep
 }
 
 // freshInLoop: v denotes (part of) an object allocated inside the loop in the same iteration.
@@ -617,6 +628,41 @@ func (u *Unit) addStructWrite(ws *writeSet, t types.Type, depth int) {
 	}
 }
 
+// addSub records a write to family fam at the address reached from a stable base through by-value struct fields.
+func (ws *writeSet) addSub(fam, sortv string, base ssa.Value, path []subStep, deps map[string]bool) {
+	fw := ws.fams[fam]
+	if fw == nil {
+		fw = &famWrite{sort: sortv}
+		ws.fams[fam] = fw
+	}
+	fw.nonFresh = true
+	if fw.deps == nil {
+		fw.deps = map[string]bool{}
+	}
+	for d := range deps {
+		fw.deps[d] = true
+	}
+	fw.subBases = append(fw.subBases, subBase{base, append([]subStep{}, path...)})
+}
+
+// addStructWriteAt: a whole struct of type t is stored at base.path (base stable): every leaf is written location-wise.
+func (u *Unit) addStructWriteAt(ws *writeSet, t types.Type, base ssa.Value, path []subStep, deps map[string]bool, depth int) {
+	s, ok := t.Underlying().(*types.Struct)
+	if !ok || depth > 5 {
+		return
+	}
+	for i := 0; i < s.NumFields(); i++ {
+		ft := s.Field(i).Type()
+		if isStructType(ft) {
+			u.addStructWriteAt(ws, ft, base, append(append([]subStep{}, path...), subStep{t, i}), deps, depth+1)
+			continue
+		}
+		for _, c := range comps(ft) {
+			ws.addSub(fieldFam(t, i)+c[0], ArrSort(SInt, c[1]), base, path, deps)
+		}
+	}
+}
+
 // addStructWriteBase: like addStructWrite but remembers whether the written object is fresh in the loop.
 func (u *Unit) addStructWriteBase(ws *writeSet, t types.Type, depth int, base ssa.Value, inLoop func(ssa.Value) bool) {
 	if base != nil && freshInLoop(base, inLoop, 0) {
@@ -673,7 +719,12 @@ func (u *Unit) scanWrites(fr *frame, blocks map[*ssa.BasicBlock]bool, ws *writeS
 				case *ssa.FieldAddr:
 					st := derefType(a.X.Type())
 					if isStructType(elem) {
-						u.addStructWriteBase(ws, elem, 0, a.X, inLoop)
+						deps := map[string]bool{}
+						if !freshInLoop(a.X, inLoop, 0) && stableBase(a.X, inLoop, deps, 0) && depth == 0 {
+							u.addStructWriteAt(ws, elem, a.X, []subStep{{st, a.Field}}, deps, 0)
+						} else {
+							u.addStructWriteBase(ws, elem, 0, a.X, inLoop)
+						}
 					} else {
 						u.addTypeWrite(ws, fieldFam(st, a.Field), elem, a.X, inLoop)
 					}
@@ -789,6 +840,13 @@ func (u *Unit) runLoopCut(fr *frame, L *Loop, spec *LoopSpec, entries []edgeStat
 			cur := old
 			for _, b := range fw.bases {
 				ref := u.asSc(u.evalStable(entrySt, b), nil).T
+				cur = Store(cur, ref, u.ctx.Fresh("hv", arrVal(fw.sort)))
+			}
+			for _, sb := range fw.subBases {
+				ref := u.asSc(u.evalStable(entrySt, sb.base), nil).T
+				for _, stp := range sb.path {
+					ref = u.subAddr(ref, stp.T, stp.I)
+				}
 				cur = Store(cur, ref, u.ctx.Fresh("hv", arrVal(fw.sort)))
 			}
 			u.heapSet(head, fam, cur)
